@@ -1,7 +1,7 @@
 (* Props/C06.v — audited surface for property C06 (error / failure policy state machine). *)
 From Coq Require Import ZArith List Bool PrimFloat String.
 Import ListNotations.
-Require Import PyBase Solver SolverFacts SolverFacts2 SolverFacts3 SolverF SolverExamples.
+Require Import PyBase Solver SolverFacts SolverFacts2 SolverFacts3 SolverFacts4 SolverFacts5 SolverF SolverExamples SolverExamples2.
 Require Import SolveAll SolveAllF SolveAllFacts SolveAllExamples.
 Require Fsic.Gen.Generated.
 Open Scope Z_scope.
@@ -203,6 +203,77 @@ Section C06.
      Raise (SolutionError (Some c))).
   Proof. intros H1 H2 H3 H4 H5. exact (after_exception_surfaces num sub absf ltb isfin zero ev before after d o t s p v1 H1 H2 H3 H4 H5 k0 v'' c). Qed.
 
+  (* THE COMPLETE STATE MACHINE of one period — all five `errors` values at once, no assumption on the oracles (they may
+     raise at any pass) or on finiteness.  With `lcur j` the loop's local check vector after pass j (the stored one, except
+     that 'replace' zeroes its non-finite entries after a non-finite pass), pass j STOPS the loop iff it raises, or it started
+     from a finite local vector and either left a non-finite stored vector under raise / skip / an invalid mode (under
+     ignore / replace only on the last permitted pass), or left a finite one with j >= min_iter and every check variable
+     moved by < tol.  solve_t is the bookkeeping (`finish`) of the outcome `result_at` of the FIRST stopping pass;
+     if no pass stops: 'F', iterations = max_iter. *)
+  Theorem C06_complete_state_machine d o t s p v1 :
+    min_iter o <= max_iter o ->
+    py_pos (List.length (status s)) t = Some p -> feasible d (List.length (status s)) p = true -> offset o = 0 ->
+    is_raise (errors o) && negb (all_finite (get_check d (vals_of s) p)) = false ->
+    before t (errors o) (catch_first o) 0%nat (vals_of s) = (v1, None) ->
+    let c0 := get_check d (vals_of s) p in
+    let N := Z.to_nat (max_iter o) in
+    let lg := log s ++ [EvBefore t] in
+    solve_t_M d o t s =
+    finish num o s p
+      (match find_first (stops num sub absf ltb isfin zero ev d o t p c0 v1 N) 1 N with
+       | Some k => result_at num isfin zero ev after d o t p c0 v1 k lg
+       | None => LDone (st_after o t v1 N) Failed N (lg ++ pass_events t 1 N)
+       end).
+  Proof. exact (solve_t_complete_spec num sub absf ltb isfin zero ev before after d o t s p v1). Qed.
+
+  (* what `stops` and `result_at` say, spelled out (definitional unfoldings, so that the theorem above can be read here) *)
+  Theorem C06_stops_unfold d o t p c0 v1 N j :
+    stops num sub absf ltb isfin zero ev d o t p c0 v1 N j =
+    (match snd (evk o t j (st_after o t v1 (j - 1))) with Some _ => true | None => false end) ||
+    (all_finite (lcur num isfin zero ev d o t p c0 v1 (j - 1)) &&
+     (if all_finite (chkseq d o t p c0 v1 j)
+      then (min_iter o <=? Z.of_nat j) &&
+           conv num sub absf ltb (tol o) (chkseq d o t p c0 v1 j) (lcur num isfin zero ev d o t p c0 v1 (j - 1))
+      else (match errors o with ERaise | ESkip | EInvalid => true | _ => false end) || (j =? N)%nat)).
+  Proof. exact (eq_refl _). Qed.
+  Theorem C06_result_at_unfold d o t p c0 v1 j lg :
+    result_at num isfin zero ev after d o t p c0 v1 j lg =
+    let lgj := lg ++ pass_events t 1 j in
+    match evk o t j (st_after o t v1 (j - 1)) with
+    | (v', Some c) => LRaise v' (if is_raise (errors o) then Some (ErrorSt, j) else None) (SolutionError (Some c)) lgj
+    | (v', None) =>
+        if all_finite (chkseq d o t p c0 v1 j) then
+          match afterk num after o t j (st_after o t v1 j) with
+          | (v'', Some c) => LRaise v'' None (SolutionError (Some c)) (lgj ++ [EvAfter t j])
+          | (v'', None) => LDone v'' Solved j (lgj ++ [EvAfter t j])
+          end
+        else
+          match errors o with
+          | ERaise => LRaise (st_after o t v1 j) (Some (ErrorSt, j)) (SolutionError None) lgj
+          | ESkip => LDone (st_after o t v1 j) Skipped j lgj
+          | EInvalid => LRaise (st_after o t v1 j) None ValueError lgj
+          | EIgnore | EReplace => LDone (st_after o t v1 j) Failed j lgj
+          end
+    end.
+  Proof. exact (eq_refl _). Qed.
+  (* the local vector: the stored check vector, except after a non-finite pass under 'replace' *)
+  Theorem C06_lcur_step d o t p c0 v1 j :
+    lcur num isfin zero ev d o t p c0 v1 0 = c0 /\
+    lcur num isfin zero ev d o t p c0 v1 (S j) =
+    if (match errors o with EReplace => true | _ => false end) && all_finite (lcur num isfin zero ev d o t p c0 v1 j)
+       && negb (all_finite (chkseq d o t p c0 v1 (S j)))
+    then replace_nonfinite num isfin zero (chkseq d o t p c0 v1 (S j)) else chkseq d o t p c0 v1 (S j).
+  Proof. exact (lcur_0_S num isfin zero ev d o t p c0 v1 j). Qed.
+
+  (* solve_t consults its oracles only at this call's period argument, `errors` and `catch_first_error` (the warnings filter
+     is selected from exactly these two options and nothing else) *)
+  Theorem C06_solve_t_hooks_ext (ev' before' after' : hook num) d o t s :
+    (forall k v, ev t (errors o) (catch_first o) k v = ev' t (errors o) (catch_first o) k v) ->
+    (forall k v, before t (errors o) (catch_first o) k v = before' t (errors o) (catch_first o) k v) ->
+    (forall k v, after t (errors o) (catch_first o) k v = after' t (errors o) (catch_first o) k v) ->
+    solve_t_M d o t s = Solver.solve_t_M num sub absf ltb isfin zero ev' before' after' d o t s.
+  Proof. exact (solve_t_hooks_ext num sub absf ltb isfin zero ev ev' before before' after after' d o t s). Qed.
+
   (* ANY call of solve_t (any arguments, oracles, state; no hypothesis at all): it either records nothing (and then does not
      return a flag), or stamps exactly position t with '.', 'F', 'S' (only under skip) or 'E' (only under raise), the outcome
      agreeing with the stamp: True iff '.', SolutionError with 'E', NonConvergenceError only with 'F' and failures='raise' *)
@@ -291,6 +362,26 @@ Theorem C06_catch_first_no_store sc d (o : fopts) t (s : fstate) p ps k pre i x 
            (log s ++ [EvBefore t] ++ pass_events t 1 (S k)), Raise (SolutionError (Some 1))).
 Proof. exact (f_catch_first_no_store sc d o t s p ps k pre i x rest). Qed.
 
+(* the warnings filter: unless errors='raise' AND catch_first_error, a warning is recorded and dropped — solve_t behaves
+   exactly as on the script in which every warning-raising statement is an ordinary store (so detection is end-of-pass) *)
+Theorem C06_warnings_dropped_unless_raise_and_catch_first sc d (o : fopts) t (s : fstate) :
+  is_raise (errors o) && catch_first o = false ->
+  f_solve_t sc d o t s = f_solve_t (unwarn_scripts sc) d o t s.
+Proof. exact (f_solve_t_warnings_dropped sc d o t s). Qed.
+
+(* ... and with both set, a warning in the PRE-hook surfaces as SolutionError chained to the warning before its statement
+   stores; no pass runs and nothing is recorded *)
+Theorem C06_before_hook_warning_caught sc d (o : fopts) t (s : fstate) p ps pre i x rest :
+  min_iter o <= max_iter o ->
+  py_pos (List.length (status s)) t = Some p -> feasible d (List.length (status s)) p = true -> offset o = 0 ->
+  errors o = ERaise -> catch_first o = true ->
+  all_finite float fisfin (get_check float fzero d (vals_of s) p) = true ->
+  lookup p sc = Some ps -> sbefore ps = pre ++ AWarnSet i x :: rest -> no_stop pre = true ->
+  f_solve_t sc d o t s =
+  (mkState (fst (run_actions true p pre (vals_of s))) (status s) (iters s) (log s ++ [EvBefore t]),
+   Raise (SolutionError (Some 1))).
+Proof. exact (f_before_warning_caught sc d o t s p ps pre i x rest). Qed.
+
 (* finding #5: under 'replace' the pass after a non-finite pass IS judged (against zeros) — the clause
    "a pass that starts from non-finite check values is never judged" is refuted for replace *)
 Theorem C06_replace_judged_after_nonfinite_refuted :
@@ -311,6 +402,13 @@ Print Assumptions C06_replace_policy.
 Print Assumptions C06_solved_only_if_judged.
 Print Assumptions C06_nonfinite_start_never_judged_partial.
 Print Assumptions C06_after_exception_surfaces.
+Print Assumptions C06_complete_state_machine.
+Print Assumptions C06_stops_unfold.
+Print Assumptions C06_result_at_unfold.
+Print Assumptions C06_lcur_step.
+Print Assumptions C06_solve_t_hooks_ext.
+Print Assumptions C06_warnings_dropped_unless_raise_and_catch_first.
+Print Assumptions C06_before_hook_warning_caught.
 Print Assumptions C06_solve_t_status_shape.
 Print Assumptions C06_calls_status_invariant.
 Print Assumptions C06_catch_first_no_store.
@@ -323,3 +421,6 @@ Print Assumptions ex6_quiet_satisfiable.
 Print Assumptions ex7_catch_first.
 Print Assumptions exB_skip_moves_on.
 Print Assumptions ex8_never_judged_hypotheses_satisfiable.
+Print Assumptions ex10_state_machine_instances.
+Print Assumptions ex11_warning_filter.
+Print Assumptions ex12_before_hook_warning.
